@@ -32,6 +32,7 @@ type HistOpts struct {
 	NoBadValues   bool // never submit values that the known halting defects need (used while a finding is open)
 	ValsetBias    int  // EVM registration at any time, checkpoint signing, power shifts around 5%, two-week gaps (C16)
 	Probe         bool // after every block, probe the aggregate getters and record the answers (C08)
+	Fanout        bool // a dispute story whose fee is paid from the bond of a reporter with several selectors, twice (every per-account list has several entries)
 	TieBias       bool // equal-power reporters submitting a few distinct values (equal-weight ties in weighted-mode rounds)
 	Stories       int  // percentage of histories that contain a scripted dispute life cycle
 	ValStatus     bool // SDK-native validator jail / unjail events (validators leave and re-enter the bonded set)
@@ -604,6 +605,27 @@ func (w *World) block(o HistOpts, d time.Duration, scripted ...func()) bool {
 	return ok
 }
 
+// widestReporter: the reporter (other than not) with the most selectors.
+func (w *World) widestReporter(not *Actor) *Actor {
+	var best *Actor
+	bestN := 0
+	for _, r := range w.reporters() {
+		if r.Name == not.Name {
+			continue
+		}
+		n := 0
+		for _, a := range w.Actors {
+			if s, err := w.App.ReporterKeeper.Selectors.Get(w.Ctx, a.Addr.Bytes()); err == nil && string(s.Reporter) == string(r.Addr.Bytes()) {
+				n++
+			}
+		}
+		if n > bestN {
+			best, bestN = r, n
+		}
+	}
+	return best
+}
+
 func (w *World) lastDisputeId() uint64 {
 	ids := w.disputeIds()
 	if len(ids) == 0 {
@@ -663,7 +685,7 @@ func (w *World) DisputeStory(o HistOpts) {
 		}
 		b := backers[w.pick(len(backers))]
 		dels, _ := w.App.StakingKeeper.GetDelegatorDelegations(w.Ctx, b.Addr, 10)
-		var outs []func()
+		var outs, early []func()
 		for _, d := range dels {
 			va, _ := sdk.ValAddressFromBech32(d.ValidatorAddress)
 			v, err := w.App.StakingKeeper.GetValidator(w.Ctx, va)
@@ -675,8 +697,14 @@ func (w *World) DisputeStory(o HistOpts) {
 				if wv.ValAddr.String() == d.ValidatorAddress && tok > 1000 {
 					wv := wv
 					take := tok - tok/int64(50+w.pick(400))
-					if w.pick(2) == 0 {
+					if k := w.pick(3); k == 0 {
 						outs = append(outs, func() { w.Undelegate(b, wv, take) })
+					} else if k == 1 {
+						// ... in two steps, a small one first (two unbonding entries of different heights: the slash
+						// must go through both)
+						small := take / int64(3+w.pick(20))
+						early = append(early, func() { w.Undelegate(b, wv, small) })
+						outs = append(outs, func() { w.Undelegate(b, wv, take-small) })
 					} else {
 						// ... or moves most of it to another validator: the slash must follow the redelegation for what is missing
 						to := w.Vals[(w.pick(len(w.Vals)-1)+1+indexOfVal(w.Vals, wv))%len(w.Vals)]
@@ -684,6 +712,9 @@ func (w *World) DisputeStory(o HistOpts) {
 					}
 				}
 			}
+		}
+		if len(early) > 0 {
+			w.block(o, 3*sec, early...)
 		}
 		w.block(o, 3*sec, outs...)
 	} else {
@@ -707,6 +738,24 @@ func (w *World) DisputeStory(o HistOpts) {
 		first = 10_000
 	}
 	fromBond := w.pick(4) == 0
+	if o.Fanout {
+		// the fee comes from the bond of the reporter with the most selectors (other than the disputed one), in two parts
+		if p := w.widestReporter(r); p != nil {
+			payers[0] = p
+			// ... whose own stake is spread over all validators
+			var spread []func()
+			for _, v := range w.Vals {
+				v := v
+				spread = append(spread, func() { w.Delegate(p, v, int64(2_000_000+w.pick(3_000_000))) })
+			}
+			w.block(o, 2*sec, spread...)
+		}
+		if !partial {
+			partial = true
+			first = full.Int64()/2 + 1
+		}
+		fromBond = true
+	}
 	if !w.block(o, 2*sec, func() { w.ProposeDispute(payers[0], rep, cat, first, fromBond, "story") }) {
 		return
 	}
@@ -715,12 +764,20 @@ func (w *World) DisputeStory(o HistOpts) {
 		return
 	}
 	if partial {
-		switch w.pick(3) {
+		branch := w.pick(3)
+		if o.Fanout && branch == 0 {
+			branch = 1
+		}
+		switch branch {
 		case 0: // never completed: expires after one day
 			w.block(o, 24*time.Hour+sec)
 			w.block(o, 2*sec, func() { w.WithdrawFeeRefund(payers[0], payers[0], id) }, func() { w.WithdrawFeeRefund(payers[0], payers[0], id) })
 			return
 		default:
+			// the first payer pays a second part from its bond (two stake-paid fees recorded under one dispute)
+			if fromBond && (w.pick(2) == 0 || o.Fanout) {
+				w.block(o, 3*sec, func() { w.AddFee(payers[0], id, int64(10_000+w.pick(50_000)), true) })
+			}
 			// a plain selector (not a reporter) pays part of the fee from its bond: only its own stake may go down
 			for _, a := range w.Actors {
 				if sl, err := w.App.ReporterKeeper.Selectors.Get(w.Ctx, a.Addr.Bytes()); err == nil && string(sl.Reporter) != string(a.Addr.Bytes()) && string(sl.Reporter) != string(r.Addr.Bytes()) {
@@ -880,7 +937,9 @@ func (w *World) LongDepositStory(o HistOpts, ops []*Actor) {
 		return
 	}
 	// last block of the window: still accepted; the round aggregates in this block
-	w.block(o, 2*sec, func() { w.Submit(ops[1%len(ops)], dep, val) })
+	// (several reporters in that block: the first re-opens the query under a new id, the others must land in that
+	// same new round)
+	w.block(o, 2*sec, func() { w.Submit(ops[1%len(ops)], dep, val) }, func() { w.Submit(ops[2%len(ops)], dep, val) }, func() { w.Submit(ops[0], dep, val) })
 	// the block after: no round any more - a fresh one is opened
 	w.block(o, 2*sec, func() { w.Submit(ops[0], dep, val) })
 	// a tipped deposit round (short window from the registry) that nobody reports in time, reported after expiry
@@ -1207,6 +1266,17 @@ func (w *World) SelectorStory(o HistOpts) {
 		c = others[1]
 	}
 	w.block(o, 3*time.Second, func() { w.SwitchReporter(sel, c) })
+	// while its lock runs the selector opens a delegation with a validator it had none with (a new staking record is
+	// created, the selection must keep its lock)
+	if w.pick(2) == 0 {
+		for _, v := range w.Vals {
+			if _, err := w.App.StakingKeeper.GetDelegation(w.Ctx, sel.Addr, v.ValAddr); err != nil {
+				v := v
+				w.block(o, 2*time.Second, func() { w.Delegate(sel, v, int64(1_000_000+w.pick(4_000_000))) })
+				break
+			}
+		}
+	}
 	w.block(o, 2*time.Second, func() { w.Submit(c, q(), hex32(1002)) })
 	w.block(o, 2*time.Second, func() { w.Submit(c, q(), hex32(1003)) }, func() { w.Submit(cur, q(), hex32(1003)) })
 	if w.pick(2) == 0 {
@@ -1247,6 +1317,9 @@ func (w *World) RunHistory(o HistOpts) {
 	w.Bootstrap(o)
 	if o.TieBias {
 		w.TieDisputeStory(o)
+	}
+	if o.Fanout {
+		w.DisputeStory(o)
 	}
 	storyAt := -1
 	if o.Stories > 0 && w.pick(100) < o.Stories {
